@@ -26,7 +26,8 @@ class SelectChoiceValidator:
             if not re.match("^[a-zA-Z0-9_-]+(?:,[a-zA-Z0-9_-]+)*$", selected_choices):
                 raise ValueError(self._question.error_message.format(selected))
 
-            selected_choices = selected_choices.split(",")
+            # Only the blanks around the separated values are insignificant
+            selected_choices = [choice.strip() for choice in selected.split(",")]
         else:
             selected_choices = [selected]
 
